@@ -36,6 +36,10 @@ def cfg_of(name):
 
 
 def extract_part(p, repo):
+    if p['src'] is None:
+        # pure stub part: assumed contracts of modules that are not in this build (no code of the crate)
+        from collections import Counter
+        return '', Counter()
     path = os.path.join(repo, p['src'])
     try:
         src = open(path).read()
